@@ -332,11 +332,24 @@ func (g *QGen) directive(composite bool) string {
 	if composite {
 		g.feat("directive-composite")
 	}
-	if g.R.Intn(2) == 0 {
-		return fmt.Sprintf(" %s(if: %v)", d, g.R.Intn(2) == 0)
+	one := func(name string) string {
+		if g.R.Intn(2) == 0 {
+			return fmt.Sprintf(" %s(if: %v)", name, g.R.Intn(2) == 0)
+		}
+		g.feat("directive-var")
+		return fmt.Sprintf(" %s(if: %s)", name, g.boolVar())
 	}
-	g.feat("directive-var")
-	return fmt.Sprintf(" %s(if: %s)", d, g.boolVar())
+	out := one(d)
+	if g.R.Intn(3) == 0 {
+		// both conditions on one selection (each may appear once): it is included only if both let it in
+		other := "@skip"
+		if d == "@skip" {
+			other = "@include"
+		}
+		out += one(other)
+		g.feat("directive-pair")
+	}
+	return out
 }
 
 // level tracks, for one object position of the response, which field each response key denotes, so that
